@@ -3512,7 +3512,48 @@ func checkCanary(r *report, where string) {
 	}
 }
 
+// exportedConstants: the named constants a program writes instead of numbers mean what MQTT says
+// (3.8.3.1 subscription options, 2.1.3 header flags, 3.1.2 connect flags): a packet built with
+// the name must carry the bit the specification gives that name
+func exportedConstants(r *report) {
+	defer func() {
+		if e := recover(); e != nil {
+			r.fail("conformance-panic", "exported constants", fmt.Sprint(e))
+		}
+	}()
+	for _, c := range []struct {
+		name string
+		opt  mq.Opt
+		want byte
+	}{{"OptQoS1", mq.OptQoS1, 1}, {"OptQoS2", mq.OptQoS2, 2}, {"OptNL", mq.OptNL, 4}, {"OptRAP", mq.OptRAP, 8},
+		{"OptRetain1", mq.OptRetain1, 16}, {"OptRetain2", mq.OptRetain2, 32}, {"OptNL|OptQoS1", mq.OptNL | mq.OptQoS1, 5}, {"OptRAP|OptRetain2|OptQoS2", mq.OptRAP | mq.OptRetain2 | mq.OptQoS2, 42}} {
+		sub := mq.NewSubscribe()
+		sub.SetPacketID(1)
+		sub.AddFilters(mq.NewTopicFilter("a", c.opt))
+		f := frameOf(sub)
+		if len(f) == 0 || f[len(f)-1] != c.want {
+			r.fail("frame-carries-other-values", "H 8 SetPacketID:1 AddFilter:61:"+strconv.Itoa(int(c.want)), fmt.Sprintf("a filter built with mq.%s is written with options byte %#02x, MQTT says %#02x (frame %s)", c.name, f[len(f)-1], c.want, hexs(f)))
+		}
+		if o := readOnce(oneChunk([]byte{0x82, 7, 0, 1, 0, 0, 1, 'a', c.want})); o.kind != 8 || len(o.p.(*mq.Subscribe).Filters()) != 1 || o.p.(*mq.Subscribe).Filters()[0].Options() != c.opt {
+			r.fail("frame-carries-other-values", "R 1 82070001000001"+hexs([]byte{'a', c.want}), "options byte "+strconv.Itoa(int(c.want))+" is not reported as mq."+c.name)
+		}
+	}
+	pub := mq.NewPublish()
+	pub.SetTopicName("t")
+	pub.SetRetain(true)
+	if f := frameOf(pub); len(f) == 0 || f[0] != 0x30|mq.RETAIN || mq.RETAIN != 1 || mq.DUP != 8 || mq.QoS1 != 2 || mq.QoS2 != 4 {
+		r.fail("frame-carries-other-values", "H 3 SetTopicName:74 SetRetain:1", "header flag constants RETAIN/QoS1/QoS2/DUP are not 1/2/4/8")
+	}
+	con := mq.NewConnect()
+	con.SetCleanStart(true)
+	if !con.HasFlag(mq.CleanStart) || mq.CleanStart != 2 || mq.WillFlag != 4 || mq.WillQoS1 != 8 || mq.WillQoS2 != 16 || mq.WillRetain != 32 || mq.PasswordFlag != 64 || mq.UsernameFlag != 128 {
+		r.fail("frame-carries-other-values", "H 1 SetCleanStart:1", "connect flag constants are not the bits of 3.1.2.3")
+	}
+	r.eval("exported-constants", true, "constants")
+}
+
 func oracleC02(r *report, g *G, n int, single string) {
+	exportedConstants(r)
 	pollute(g)
 	type job struct {
 		c            string
